@@ -217,16 +217,21 @@ class Timeout(Exception):
 
 
 @contextmanager
-def time_limit(seconds):
+def time_limit(seconds, cpu=False):
+    """cpu=True: the limit is on the CPU time of this process (ITIMER_VIRTUAL), so that a loaded machine does not turn a slow
+    but finite computation into a timeout; a hang of the code under test burns CPU and is caught all the same."""
     def handler(signum, frame):
         raise Timeout()
-    old = signal.signal(signal.SIGALRM, handler)
-    signal.setitimer(signal.ITIMER_REAL, seconds)
+    sig, timer = (signal.SIGVTALRM, signal.ITIMER_VIRTUAL) if cpu else (signal.SIGALRM, signal.ITIMER_REAL)
+    old = signal.signal(sig, handler)
+    # re-armed every 0.2 s after the limit: code under test may swallow the first Timeout (pydantic turns an exception raised
+    # while it iterates its input into a validation error of that union member and goes on with the next member)
+    signal.setitimer(timer, seconds, 0.2)
     try:
         yield
     finally:
-        signal.setitimer(signal.ITIMER_REAL, 0)
-        signal.signal(signal.SIGALRM, old)
+        signal.setitimer(timer, 0)
+        signal.signal(sig, old)
 
 
 EXC_KIND = {
@@ -237,10 +242,10 @@ EXC_KIND = {
 ERR_CODES = {1: "EValue", 2: "EType", 3: "EAttr", 4: "EIndex", 5: "EKey", 6: "EValidation", 7: "ERecursion", 8: "EUndefined"}
 
 
-def impl_call(fn, *a, limit=20.0, **kw):
+def impl_call(fn, *a, limit=20.0, cpu=False, **kw):
     """Run the implementation; exceptions become ('EXC', kind, class name)."""
     try:
-        with time_limit(limit):
+        with time_limit(limit, cpu=cpu):
             return ("OK", fn(*a, **kw))
     except Timeout:
         return ("EXC", "TIMEOUT", "Timeout")
